@@ -570,6 +570,16 @@ func GenHistory(r *rand.Rand, o GenOpts) *History {
 	}
 	if r.Float64() < o.PForbidden && len(subs) > 0 {
 		h.Forbidden = append(h.Forbidden, subs[r.Intn(len(subs))].ID)
+		// the configured list has several entries (main net: 4): the entry that is hit is not always the first
+		switch r.Intn(3) {
+		case 0:
+			h.Forbidden = append([]int{9001, 9002}[:1+r.Intn(2)], h.Forbidden...) // ids nobody submits
+		case 1:
+			if x := subs[r.Intn(len(subs))].ID; x != h.Forbidden[0] {
+				h.Forbidden = append(h.Forbidden, x)
+			}
+			h.Forbidden = append(h.Forbidden, 9003)
+		}
 	}
 	for i, s := range order {
 		h.Subs = append(h.Subs, s)
